@@ -224,6 +224,14 @@ vector<string> ParameterList::getMatchingParameterNames(const string& pattern) c
   {
     string name = parameters_[i]->getName();
 
+    if (pattern.find('*') == string::npos)
+    {
+      // No wildcard: only the identical name matches.
+      if (name == pattern)
+        pNames.push_back(name);
+      continue;
+    }
+
     StringTokenizer stj(pattern, "*", true, false);
     size_t pos1, pos2;
     bool flag(true);
